@@ -69,10 +69,19 @@ Theorem c10_after_close_errors : forall pre post a, conn_level a = true ->
 Proof. exact after_close_now. Qed.
 Print Assumptions c10_after_close_errors.
 
-Theorem c10_after_close_errors_any_state : forall c a, c_status c = Closed -> fix_f5 (c_cfg c) = true -> conn_level a = true ->
-  conn_api c a = RConnClosed.
+Theorem c10_after_close_errors_any_state : forall c a, c_status c = Closed -> fix_f5 (c_cfg c) = true -> ctx_first (c_cfg c) = false ->
+  conn_level a = true -> conn_api c a = RConnClosed.
 Proof. exact matrix_repaired. Qed.
 Print Assumptions c10_after_close_errors_any_state.
+
+(* the theorem depends on waitUntil consulting the closed-status hook BEFORE the context: the e2e senders
+   wait on a context that a watcher cancels as soon as the status is Closed; in the model that context
+   counts as already done (worst case).  With the two looked at in the other order the same entry
+   returns context.Canceled *)
+Theorem c10_hook_before_context_matters : forall c, c_status c = Closed -> ctx_first (c_cfg c) = true ->
+  conn_api c ACallWait = RCanceled.
+Proof. exact ctx_first_misclassifies. Qed.
+Print Assumptions c10_hook_before_context_matters.
 
 (* FORMER code (before 9b8bda8, finding F5 - fixed): SendMetadata waited for its context and
    SendCallAndWaitReplayCall returned context.Canceled *)
